@@ -50,7 +50,7 @@ func (k *c13) Setup(c *core.Ctx) (int, error) {
 	if len(k.gens) != 11 {
 		return 0, fmt.Errorf("expected 11 statement generators, have %d", len(k.gens))
 	}
-	k.per = c.N(40, 1500)
+	k.per = c.N(150, 3000)
 	dev := map[string]string{}
 	for _, g := range k.gens {
 		dev[g.Name()] = g.Deviations()
